@@ -391,3 +391,103 @@ func runSeeds(vdir, repo, prop string) map[string]any {
 	return map[string]any{"changes": len(dirs), "detected": counts["detected"], "missed": counts["missed"], "documented_miss": counts["documented-miss"], "neutralised": counts["neutralised"], "skipped": counts["skipped"], "invalid": counts["invalid"], "results": results,
 		"note": "replay of the independently seeded breaking changes kept under /verif/seeded (patch applied to scratch copies, analysed through the overlay); informational"}
 }
+
+// ---------------------------------------------------------------------------
+// trypatch: apply one patch to scratch copies of the files it touches and run every property's quick check on
+// the result in one process (one load). Used for the behaviour-preserving refactorings under /verif/refactors,
+// which every check must stay silent on, and to try a candidate change by hand.
+
+func cmdTryPatch(args []string) int {
+	fs := flag.NewFlagSet("trypatch", flag.ExitOnError)
+	patchFile := fs.String("patch", "", "patch.diff (relative to the repository root)")
+	repo := fs.String("repo", "/repo", "repository working tree")
+	only := fs.String("property", "", "only this property (default: all)")
+	_ = fs.Parse(args)
+	vdir := verifDir()
+	patch, err := os.ReadFile(*patchFile)
+	if err != nil {
+		fmt.Fprintln(os.Stderr, err)
+		return 2
+	}
+	abs, _ := filepath.Abs(*patchFile)
+	tmp, err := os.MkdirTemp("", "cjverif-try-*")
+	if err != nil {
+		fmt.Fprintln(os.Stderr, err)
+		return 2
+	}
+	defer os.RemoveAll(tmp)
+	var files []string
+	for _, line := range strings.Split(string(patch), "\n") {
+		if strings.HasPrefix(line, "+++ b/") {
+			files = append(files, strings.TrimSpace(strings.TrimPrefix(line, "+++ b/")))
+		}
+	}
+	for _, f := range files {
+		dst := filepath.Join(tmp, f)
+		_ = os.MkdirAll(filepath.Dir(dst), 0o755)
+		if b, err := os.ReadFile(filepath.Join(*repo, f)); err == nil {
+			_ = os.WriteFile(dst, b, 0o644)
+		}
+	}
+	ap := exec.Command("git", "apply", "--whitespace=nowarn", abs)
+	ap.Dir = tmp
+	ap.Env = append(os.Environ(), "GIT_CEILING_DIRECTORIES="+filepath.Dir(tmp))
+	if out, err := ap.CombinedOutput(); err != nil {
+		fmt.Fprintln(os.Stderr, "patch does not apply:", firstLines(string(out), 3))
+		return 3
+	}
+	overlay := map[string][]byte{}
+	for _, f := range files {
+		b, err := os.ReadFile(filepath.Join(tmp, f))
+		if err != nil {
+			fmt.Fprintln(os.Stderr, err)
+			return 2
+		}
+		overlay[filepath.Join(*repo, f)] = b
+	}
+	if _, err := runFixtures(vdir); err != nil {
+		fmt.Fprintln(os.Stderr, "fixture self-check failed:", err)
+		return 2
+	}
+	p, err := LoadProgram(*repo, repoPatterns, overlay, "")
+	if err != nil {
+		fmt.Fprintln(os.Stderr, "load failed:", firstLines(err.Error(), 5))
+		return 4
+	}
+	known, err := loadKnown(filepath.Join(vdir, "known_findings.json"))
+	if err != nil {
+		fmt.Fprintln(os.Stderr, err)
+		return 2
+	}
+	var ids []string
+	for id := range properties {
+		if *only == "" || *only == id {
+			ids = append(ids, id)
+		}
+	}
+	sort.Strings(ids)
+	bad := 0
+	for _, id := range ids {
+		code := func() (code int) {
+			defer func() {
+				if r := recover(); r != nil {
+					fmt.Printf("%s: analyser panic: %v\n", id, r)
+					code = 2
+				}
+			}()
+			r := NewReport(id, "quick", p.Roots[0].Fset, *repo)
+			allRepoFuncs = p.RepoFuncs()
+			properties[id].Run(&Ctx{P: p, R: r, Tier: "quick", Dir: *repo, Overlay: overlay})
+			return r.Finalize(finalizeOpts{VerifDir: vdir, Known: known, NoEvidence: true, Packages: len(p.RepoPkgs), Functions: len(p.RepoFuncs())})
+		}()
+		if code != 0 {
+			bad++
+			fmt.Printf("TRYPATCH %s: exit %d\n", id, code)
+		}
+	}
+	fmt.Printf("TRYPATCH summary: %d of %d properties not silent\n", bad, len(ids))
+	if bad > 0 {
+		return 1
+	}
+	return 0
+}
